@@ -58,6 +58,7 @@ import IrVerif.Lemmas.PassKernel2
 import IrVerif.Lemmas.PassKernelNames2
 import IrVerif.Lemmas.PassKernelFlag
 import IrVerif.Lemmas.PassKernelOuts3
+import IrVerif.Lemmas.PassKernelLsi
 import IrVerif.Lemmas.PassFlags15
 import IrVerif.Props.C05
 import IrVerif.Props.C01
@@ -2158,6 +2159,17 @@ theorem C14_names_kept (exact : Bool) (akey : Nat → Option Nat) (fuel : Nat) (
       ((lsiModelK fuel w g).1.w.val u).name = some nm) :=
   ⟨(cseModelK_ninv exact akey w g).kept u nm hn, (lsiModelK_ninv fuel w g).kept u nm hn⟩
 
+/-- **C14_names_lift_sub_inits** (wave 5): LiftSubgraphInitializersToMainGraph renames only what it lifts: after a run
+    that returns, every value that had a name has exactly that name, or it is now an initializer of the main graph
+    (registered under its new name by `C14_names_initializers`).  (An accepted `initializers.pop` touches only the
+    popped value and leaves it a non-initializer, `Value.name = ...` of a non-initializer touches only that value, an
+    accepted `register_initializer` touches only the registered value and makes it an initializer of the graph.) -/
+theorem C14_names_lift_sub_inits (fuel : Nat) (w : World) (g : Nat) (hr : (lsiModelK fuel w g).1.raised = false)
+    (u : Nat) (nm : String) (hn : (w.val u).name = some nm) :
+    ((lsiModelK fuel w g).1.w.val u).name = some nm ∨
+    (((lsiModelK fuel w g).1.w.val u).isInit = true ∧ ((lsiModelK fuel w g).1.w.val u).graph = some g) :=
+  lsiModelK_names fuel w g hr u nm hn
+
 /-- **C14_names_cse_outputs** (wave 5): CSE keeps the interface names of the main graph.  The output list keeps its
     length, and every position whose value has a name holds, after the pass, a value with exactly that name - the
     same value, the kept value that took over the name (`new_value.name = graph_output.name`), or the output of the
@@ -2366,6 +2378,8 @@ def wLsi : World := runAny [.one (.newValue (some "x")), .one (.newValue (some "
 example : (lsiModelK 4 wLsi 1).2 = 1 ∧ (lsiModelK 4 wLsi 1).1.raised = false ∧
     ((lsiModelK 4 wLsi 1).1.w.gr 1).inits = [("x_1", 1)] ∧ ((lsiModelK 4 wLsi 1).1.w.gr 0).inits = [] ∧
     ((lsiModelK 4 wLsi 1).1.w.val 1).name = some "x_1" ∧ ((lsiModelK 4 wLsi 1).1.w.val 0).name = some "x" ∧
+    (wLsi.val 1).name = some "x" ∧ ((lsiModelK 4 wLsi 1).1.w.val 1).isInit = true ∧
+    ((lsiModelK 4 wLsi 1).1.w.val 1).graph = some 1 ∧
     (lsiModelK 4 wLsi 1).1.trace.length = 3 := by decide +kernel
 
 /-- two initializers with the same content, each used once: the second is replaced by the first and popped -/
